@@ -1,7 +1,7 @@
 (** * C04: the impl header of fn / mod expansions with generic dependencies — the declared bounds bubble up exactly *)
 From Coq Require Import List String Ascii Bool Arith Lia.
 From Entrait Require Import Tok Syn Opts Split FnParams Convert Codegen Expand Proj Proj2 Proj3 ProjSide.
-From Entrait.Proofs Require Import Base Shapes PFnParams PC05 PC19.
+From Entrait.Proofs Require Import Base Shapes PFnParams PC05 PC19 PC10.
 Import ListNotations.
 Local Open Scope string_scope.
 Local Open Scope list_scope.
@@ -473,5 +473,7 @@ Qed.
 Lemma c04_view v attr i items :
   expand_items v attr i = Ok items -> good (view_C04g (mkCtx v attr i) items).
 Proof.
-  intros H. unfold view_C04g. destruct (c04_side (mkCtx v attr i)) eqn:E; [exact (c04_view_partial _ _ _ _ H E) | exact good_na].
+  intros H. unfold view_C04g. apply good_view_and.
+  - destruct (c04_side (mkCtx v attr i)) eqn:E; [exact (c04_view_partial _ _ _ _ H E) | exact good_na].
+  - unfold view_C10_fnmod. cbn [x_input]. destruct i; try exact good_na; apply c10_view; exact H.
 Qed.
